@@ -131,7 +131,7 @@ func (s *side) runWSSubscription(query string, vars map[string]interface{}) *obs
 			panic("unexpected message type " + m.Type)
 		}
 		var p struct {
-			Data   json.RawMessage `json:"data"`
+			Data   json.RawMessage   `json:"data"`
 			Errors []json.RawMessage `json:"errors"`
 		}
 		if err := json.Unmarshal(m.Payload, &p); err != nil {
